@@ -171,7 +171,14 @@ func (m *Model) RunPathAPI(s *Sink, rule string) {
 				if n := fnFullName(c.Call.StaticCallee()); n != "path/filepath.Walk" && n != "path/filepath.WalkDir" {
 					continue
 				}
-				if f := boundMethod(m, c.Call.Args[1]); f != nil && f.Blocks != nil {
+				cands := m.funcValues(c.Call.Args[1], 0) // also what a constructor of the callback returns
+				if f := boundMethod(m, c.Call.Args[1]); f != nil {
+					cands = append(cands, f)
+				}
+				for _, f := range cands {
+					if f == nil || f.Blocks == nil || f.Synthetic != "" {
+						continue
+					}
 					dup := false
 					for _, x := range callbacks {
 						if x == f {
@@ -321,54 +328,7 @@ func (m *Model) RunPathAPI(s *Sink, rule string) {
 			s.Violation(rule, fnKey(pp)+"|layouts are not registered", m.Pos(pp.Pos()), "files that declare reserves (layouts) are registered as renderable templates")
 		}
 	}
-	// unknown name -> template not found
-	st := m.Method("textwire", "Template", "String")
-	if st != nil {
-		ok, keyOK, nLk := false, true, 0
-		// the program lookup (in String or a helper it delegates to): keyed by the name exactly as given, and its miss edge
-		// builds the template-not-found error
-		m.walkInlined(st, 2, func(in ssa.Instruction, resolve func(ssa.Value) ssa.Value, _ int) {
-			lk, isLk := in.(*ssa.Lookup)
-			if !isLk || !lk.CommaOk || !strings.HasSuffix(fieldPathOf(lk.X), ".programs") {
-				return
-			}
-			nLk++
-			if len(st.Params) < 2 || resolve(lk.Index) != ssa.Value(st.Params[1]) {
-				keyOK = false
-			}
-			for _, rr := range *lk.Referrers() {
-				ex, isEx := rr.(*ssa.Extract)
-				if !isEx || ex.Index != 1 {
-					continue
-				}
-				for _, fb := range failureTargets(ex) {
-					// blocks reached on the miss edge before anything else decides: the target and the blocks it dominates
-					for _, db := range fb.Parent().Blocks {
-						if !fb.Dominates(db) {
-							continue
-						}
-						for _, fin := range db.Instrs {
-							if c, isC := fin.(*ssa.Call); isC && c.Call.StaticCallee() != nil && canonFnName(c.Call.StaticCallee()) == "New" && len(c.Call.Args) >= 4 {
-								if msg, okm := constOfValue(c.Call.Args[3]); okm && msg == "template not found" {
-									ok = true
-								}
-							}
-						}
-					}
-				}
-			}
-		})
-		if nLk > 0 && !keyOK {
-			s.Violation(rule, fnKey(st)+"|templates are looked up by the name as given", m.Pos(st.Pos()), "Template.String does not look the program up under the name it was given (the name is rewritten first): another template can be rendered in place of the requested one, and unknown names are not reported")
-		} else if nLk > 0 {
-			s.OK(rule, fnKey(st)+"|templates are looked up by the name as given", m.Pos(st.Pos()), "the key of the program lookup is the filename parameter itself")
-		}
-		if ok {
-			s.OK(rule, fnKey(st)+"|unknown name is reported as not found", m.Pos(st.Pos()), "the miss edge of the program lookup returns ErrTemplateNotFound")
-		} else {
-			s.Violation(rule, fnKey(st)+"|unknown name is reported as not found", m.Pos(st.Pos()), "an unknown template name does not take the miss edge to the template-not-found error")
-		}
-	}
+	m.RunTemplateLookup(s, rule)
 	// the configured directory is the caller's spelling, normalised only by removing slashes at its end (or by a path
 	// cleaner): whatever is stored into a configuration's TemplateDir is the given directory passed through such calls only
 	var dirValue func(v ssa.Value, d int) string // "" = fine, else what is wrong
@@ -568,7 +528,11 @@ func (m *Model) RunPathAPI(s *Sink, rule string) {
 			s.OK(rule, "textwire|no found file is dropped again", "-", "no delete on a table keyed by name in the load and render functions of the root package")
 		}
 	}
-	// EvaluateFile == EvaluateString(content)
+	m.RunEvalFile(s, rule)
+}
+
+// RunEvalFile — R-PATHAPI (file content): EvaluateFile == EvaluateString(content of the file at the given path).
+func (m *Model) RunEvalFile(s *Sink, rule string) {
 	ef := m.PkgFunc("textwire", "EvaluateFile")
 	es := m.PkgFunc("textwire", "EvaluateString")
 	fc := m.PkgFuncOr("textwire", "fileContent", func(f *ssa.Function) bool { return callsNamed(f, "ReadFile", "os.") || callsNamed(f, "Open", "os.") })
@@ -702,4 +666,71 @@ func retSource(ret *ssa.Return, i int) ssa.Value {
 		return last
 	}
 	return v
+}
+
+// RunTemplateLookup — R-PATHAPI (lookup): a template is looked up by the name as given; an unknown name is reported as
+// not found, with the path of the file the name stands for.
+func (m *Model) RunTemplateLookup(s *Sink, rule string) {
+	// unknown name -> template not found
+	st := m.Method("textwire", "Template", "String")
+	if st != nil {
+		ok, keyOK, nLk := false, true, 0
+		nNF, nfPathOK := 0, 0
+		// the program lookup (in String or a helper it delegates to): keyed by the name exactly as given, and its miss edge
+		// builds the template-not-found error
+		m.walkInlined(st, 2, func(in ssa.Instruction, resolve func(ssa.Value) ssa.Value, _ int) {
+			lk, isLk := in.(*ssa.Lookup)
+			if !isLk || !lk.CommaOk || !strings.HasSuffix(fieldPathOf(lk.X), ".programs") {
+				return
+			}
+			nLk++
+			if len(st.Params) < 2 || resolve(lk.Index) != ssa.Value(st.Params[1]) {
+				keyOK = false
+			}
+			for _, rr := range *lk.Referrers() {
+				ex, isEx := rr.(*ssa.Extract)
+				if !isEx || ex.Index != 1 {
+					continue
+				}
+				for _, fb := range failureTargets(ex) {
+					// blocks reached on the miss edge before anything else decides: the target and the blocks it dominates
+					for _, db := range fb.Parent().Blocks {
+						if !fb.Dominates(db) {
+							continue
+						}
+						for _, fin := range db.Instrs {
+							if c, isC := fin.(*ssa.Call); isC && c.Call.StaticCallee() != nil && canonFnName(c.Call.StaticCallee()) == "New" && len(c.Call.Args) >= 4 {
+								if msg, okm := constOfValue(c.Call.Args[3]); okm && msg == "template not found" {
+									ok = true
+									// ... and names the file the name stands for: the path argument is what templateFullPath returned
+									nNF++
+									pv := resolve(c.Call.Args[1])
+									if ex, isEx := pv.(*ssa.Extract); isEx && ex.Index == 0 {
+										if pc, isPC := ex.Tuple.(*ssa.Call); isPC && pc.Call.StaticCallee() != nil && callsNamed(pc.Call.StaticCallee(), "Abs", "path/filepath") {
+											nfPathOK++
+										}
+									}
+								}
+							}
+						}
+					}
+				}
+			}
+		})
+		if nLk > 0 && !keyOK {
+			s.Violation(rule, fnKey(st)+"|templates are looked up by the name as given", m.Pos(st.Pos()), "Template.String does not look the program up under the name it was given (the name is rewritten first): another template can be rendered in place of the requested one, and unknown names are not reported")
+		} else if nLk > 0 {
+			s.OK(rule, fnKey(st)+"|templates are looked up by the name as given", m.Pos(st.Pos()), "the key of the program lookup is the filename parameter itself")
+		}
+		if nNF > 0 && nfPathOK == nNF {
+			s.OK(rule, fnKey(st)+"|the not-found error names the file the name stands for", m.Pos(st.Pos()), "the path of the template-not-found error is the absolute path computed from the name")
+		} else if nNF > 0 {
+			s.Violation(rule, fnKey(st)+"|the not-found error names the file the name stands for", m.Pos(st.Pos()), "the template-not-found error is built with something other than the absolute path computed from the name (the bare name, an empty path): the debug page and the error text show no file path for a template that does not exist")
+		}
+		if ok {
+			s.OK(rule, fnKey(st)+"|unknown name is reported as not found", m.Pos(st.Pos()), "the miss edge of the program lookup returns ErrTemplateNotFound")
+		} else {
+			s.Violation(rule, fnKey(st)+"|unknown name is reported as not found", m.Pos(st.Pos()), "an unknown template name does not take the miss edge to the template-not-found error")
+		}
+	}
 }
